@@ -45,20 +45,27 @@ class Kit:
         v = py["variant"]
         sp = py["space"]
         self.v = v
+        fr = [f(x) for x in sp.get("fractions", [])]
         if v == "rv":
             self.space = b.RealVectorStateSpace(dimension=sp["dim"], bounds=[(f(lo), f(hi)) for lo, hi in sp["bounds"]])
+            if fr:
+                self.space.set_longest_valid_segment_fraction(fr[0])
             self.mk = lambda c: b.RealVectorState(list(c))
             self.flat = lambda s: list(s.values)
             self.coords = lambda s: list(s.values)
             self.pd = b.ProblemDefinition.from_real_vector
         elif v == "so2":
             self.space = b.SO2StateSpace()
+            if fr:
+                self.space.set_longest_valid_segment_fraction(fr[0])
             self.mk = lambda c: b.SO2State(c[0])
             self.flat = lambda s: [s.value]
             self.coords = lambda s: [s.value]
             self.pd = b.ProblemDefinition.from_so2
         elif v == "so3":
             self.space = b.SO3StateSpace()
+            if fr:
+                self.space.set_longest_valid_segment_fraction(fr[0])
             self.mk = lambda c: b.SO3State(c[0], c[1], c[2], c[3])
             self.flat = lambda s: [s.x, s.y, s.z, s.w]
             def coords(s):
@@ -84,6 +91,9 @@ class Kit:
         elif v == "compound":
             r2 = b.RealVectorStateSpace(dimension=2, bounds=[(f(lo), f(hi)) for lo, hi in sp["bounds"]])
             so2 = b.SO2StateSpace()
+            if fr:
+                r2.set_longest_valid_segment_fraction(fr[0])
+                so2.set_longest_valid_segment_fraction(fr[1])
             self.space = b.CompoundStateSpace([r2, so2], [f(w) for w in sp["weights"]])
             self.mk = lambda c: b.CompoundState([b.RealVectorState([c[0], c[1]]), b.SO2State(c[2])])
             def flat(s):
@@ -110,8 +120,19 @@ class Goal:
         if self.fault and self.fault.get("goal") and in_box(self.kit.coords(state), self.fault):
             if self.as_false:
                 return False
-            raise RuntimeError("goal callback failed (injected)")
+            k = len(self.fault.get("kind", "")) % 4
+            if k == 0:
+                raise RuntimeError("goal callback failed (injected)")
+            if k == 1:
+                return self.no_such_attribute          # AttributeError raised INSIDE a present is_satisfied
+            if k == 2:
+                raise TypeError("goal callback failed (injected)")
+            raise KeyboardInterrupt()
         return self.kit.space.distance(self.target, state) <= self.radius
+
+    def distance_goal(self, state):
+        # a correctly implemented goal region: 0 inside the region
+        return max(0.0, self.kit.space.distance(self.target, state) - self.radius)
 
     def sample_goal(self):
         return self.target
@@ -141,7 +162,7 @@ def run_planner(ox, case, as_false, fault_call=None):
 
     def is_valid(state):
         c = kit.coords(state)
-        faulty = bool(fault) and in_box(c, fault)
+        faulty = bool(fault) and not fault.get("goal") and in_box(c, fault)       # a goal fault leaves validity alone
         ans = not (any(in_box(c, bx) for bx in boxes) or faulty)
         for x in kit.flat(state):
             trace["h"] = fnv(trace["h"], bits(x))
@@ -205,7 +226,9 @@ def run_planner(ox, case, as_false, fault_call=None):
         states = [kit.flat(s) for s in path.states]
         out["path"] = [[hx(x) for x in s] for s in states]
         # soundness w.r.t. the Python callbacks (the only claim for PRM)
-        out["path_valid"] = all(not (any(in_box(kit.coords(s), bx) for bx in boxes) or (bool(fault) and in_box(kit.coords(s), fault))) for s in path.states)
+        out["path_valid"] = all(not (any(in_box(kit.coords(s), bx) for bx in boxes) or (bool(fault) and not fault.get("goal") and in_box(kit.coords(s), fault))) for s in path.states)
+        if fault and fault.get("goal") and in_box(kit.coords(path.states[-1]), fault):
+            out["ends_on_failed_goal_check"] = True
         out["starts_at_start"] = [hx(x) for x in kit.flat(path.states[0])] == [hx(x) for x in kit.flat(start)]
         out["ends_in_goal"] = bool(kit.space.distance(target, path.states[-1]) <= f(py["goal_radius"]))
     except BaseException as e:     # noqa: BLE001 - includes pyo3 PanicException
